@@ -490,9 +490,20 @@ func runReentrancy(event, action, transport string, late bool) (key, msg string,
 	}
 	if !returned.Load() {
 		proof := reentrancyProof()
+		if proof == "" {
+			// not waiting for a lock: is it at a standstill?  35 s is longer than every timer of the
+			// scenario (upgrade timeout 2 s, the transports' 30 s close timeout; heartbeats are off)
+			if st := rig.Standstill("runReentrancy.func1", 35*time.Second); st != "" && !returned.Load() {
+				cl.Stop()
+				return fmt.Sprintf("c18-listener-reentrancy-deadlock:%s:%s", event, action), fmt.Sprintf("a %s listener calling %s on a %s session never returned: 38 s later its goroutine is blocked at the very same place inside the library while the process sits idle: %s", event, action, transport, st), true
+			}
+		}
 		cl.Stop()
 		if proof == "" {
-			return "", "inconclusive: action did not return within 3 s but the dump shows no self-deadlock", true
+			if returned.Load() {
+				return "", "", true
+			}
+			return "", fmt.Sprintf("inconclusive: a %s listener calling %s on a %s session (late=%v) did not return within 38 s but neither a lock wait nor a standstill could be proved (%s)", event, action, transport, late, rig.StandstillWhyNot), true
 		}
 		return fmt.Sprintf("c18-listener-reentrancy-deadlock:%s:%s", event, action), fmt.Sprintf("a %s listener calling %s on a %s session never returned; three seconds later its goroutine is still waiting for a lock: %s", event, action, transport, proof), true
 	}
